@@ -274,7 +274,7 @@ func (sc *Scenario) RunAll(seed uint64, thorough bool, n int, workers int) *Resu
 						stuck[w] = 0
 					}
 					last[w] = p
-					if stuck[w] >= HangPolls(thorough) { // 2 minutes (thorough tier: 10) without finishing one run
+					if stuck[w] >= HangPolls(thorough) { // 5 minutes (thorough tier: 15) without finishing one run
 						run := uint64(atomic.LoadInt64(&current[w]))
 						if site := stuckInLibrary(); site != "" {
 							// A call into the library that takes microseconds has not
@@ -453,12 +453,12 @@ func (sc *Scenario) writeHangReplay(seed, run uint64, thorough bool, site string
 }
 
 // HangPolls is the number of 5-second polls without a finished run after which
-// a worker counts as stuck: 2 minutes in the quick tier, 10 minutes in the
+// a worker counts as stuck: 5 minutes in the quick tier, 15 minutes in the
 // thorough tier (whose runs include frames of up to 256 MiB that legitimately
 // take tens of seconds on a loaded machine).
 func HangPolls(thorough bool) int {
 	if thorough {
-		return 120
+		return 180
 	}
-	return 24
+	return 60
 }
